@@ -176,6 +176,7 @@ def run_check(prop, tier, seed):
             "unconfirmed_counterexamples": total(lambda s: len(s.unconfirmed)),
             "branch_feasibility_unknown": total(lambda s: s.branch_unknown),
             "realisations": total(lambda s: s.realized),
+            "solver_portfolio_fallbacks": {s.harness: s.portfolio for s in summaries if s.portfolio},
             "harnesses": [{"name": s.harness, "doc": s.doc, "paths": s.paths, "max_depth": s.max_depth,
                            "obligations_by_label": s.labels, "wall_s": round(s.wall, 2),
                            "exhaustive": s.exhaustive} for s in summaries],
@@ -184,8 +185,9 @@ def run_check(prop, tier, seed):
             "anchor_coverage": anchors,
             "library_models_used": sorted(cov["models"]),
             "stubs": getattr(mod, "STUBS", []),
-            "solver": "z3 %s (Python API, in-process), per-query timeout %d ms" % (
-                __import__("z3").get_version_string(), opts.query_timeout_ms),
+            "solver": "z3 %s (Python API, in-process, incremental); obligations it cannot decide are retried on a fresh "
+                      "non-incremental z3 solver and then on the /usr/bin/z3 4.8.12 binary; per-query timeout %d ms" % (
+                          __import__("z3").get_version_string(), opts.query_timeout_ms),
             "known_findings_reported": sorted(known_hit),
             "explanation": "states = feasible completed paths of the real code under symbolic inputs; "
                            "transitions = branch decisions taken; traces_validated_against_impl = paths whose "
